@@ -134,7 +134,7 @@ theorem digits_of_value {y : ED} (hy : ECanon y) {v : Nat} (hv : v < 10) (h : ED
   have hc : ECanon (EDec.ofDigit v) := ecanon_ofDigit hv
   exact toNat_inj_canon hy.1 hc.1 hy.2 hc.2 (by simp [h, EDec.toNat])
 
-/-- a result that is zero is printed `0/1`: no sign (535b52e), numerator digit 0, denominator 1 (lowest terms). -/
+/-- a result that is zero is printed `0/1`: no sign (5d744db), numerator digit 0, denominator 1 (lowest terms). -/
 theorem good_zero_text {res : ER} {v : Rat} (g : Good res v) (hv : v = 0) : toText res = "0/1" := by
   have hc := g.canon
   have hval := g.value
